@@ -81,10 +81,20 @@ def segment (b : Bytes) (cuts : List Nat) : List Bytes :=
       else go (rest.drop (o - last)) o cs (acc ++ [rest.take (o - last)])
   go b 0 cuts []
 
-/-- reader for a cut spec: "c" contiguous, "w" one segment, "3,17" cut offsets -/
-def readerOf (b : Bytes) (cuts : String) : Option Rd :=
+/-- split into buffers of the given lengths (may contain empty ones), as harness Reader("own") does -/
+def segmentLens (b : Bytes) (lens : List Nat) : List Bytes :=
+  let rec go (rest : Bytes) (lens : List Nat) (acc : List Bytes) : List Bytes :=
+    match lens with
+    | [] => if rest.isEmpty then acc else acc ++ [rest]
+    | n :: ls => if n > rest.length then (if rest.isEmpty then acc else acc ++ [rest]) else go (rest.drop n) ls (acc ++ [rest.take n])
+  go b lens []
+
+/-- reader for a cut spec: "c" contiguous, "w" one segment, "own" the encoder's own buffers,
+    "3,17" cut offsets -/
+def readerOf (b : Bytes) (cuts : String) (own : List Nat := []) : Option Rd :=
   if cuts == "c" then some (newBufferReader b)
   else if cuts == "w" then some (newWireReader [b])
+  else if cuts == "own" then some (newWireReader (segmentLens b own))
   else ((cuts.splitOn ",").mapM String.toNat?).map fun cs => newWireReader (segment b cs)
 
 def resText (r : Res String) : String :=
